@@ -71,6 +71,10 @@ type Dyn struct {
 	Scribblers []func() string        // take Values()/Keys(), overwrite it and append within its capacity; returns which slice
 	Snapshots  []func() func() string // take Values()/Keys() and a deep copy now; the returned func later reports a difference
 	SortedBy   func(cmpIdx int) (name string, got []any, sortedOK bool, isPerm bool)
+	// JSON denotation and document generation (C11, C12)
+	Denote     func(data []byte) (elems []any, ok bool) // elements / pairs in the order PutAny must insert them
+	GenDoc     func(r *core.R, n int, dupKeys, dupVals bool) []byte
+	TotalOrder bool // the comparator(s) in use distinguish all elements of the domain (no ties between distinct elements)
 }
 
 // sliceProbes builds the C16 probes for one slice-returning observer.
@@ -256,7 +260,10 @@ type dynCfg struct {
 	cap   int
 }
 
-func drawCfg(r *core.R, natural bool) dynCfg {
+// drawCfg draws a configuration; with total set only comparators that
+// distinguish all elements (natural, reversed) are used.
+func drawCfg(r *core.R, total bool) dynCfg {
+	natural := false
 	cfg := dynCfg{cmp: r.Intn(3), vcmp: r.Intn(3), order: btreeOrders[r.Intn(len(btreeOrders))], cap: ringCaps[r.Intn(len(ringCaps))]}
 	if r.Bool() {
 		cfg.cap = r.Range(1, 9)
@@ -265,12 +272,21 @@ func drawCfg(r *core.R, natural bool) dynCfg {
 	if natural {
 		cfg.cmp, cfg.vcmp = 0, 0
 	}
+	if total {
+		cfg.cmp, cfg.vcmp = r.Intn(2), r.Intn(2)
+	}
 	return cfg
 }
 
 // NewDyn constructs container `kind` over element domain d (value
 // containers) or key domain d and value domain dv (key-value containers).
 func NewDyn[T comparable, V comparable](kind string, d *Dom[T], dv *Dom[V], cfg dynCfg) *Dyn {
+	dy := newDyn(kind, d, dv, cfg)
+	dy.TotalOrder = cfg.cmp < 2 && cfg.vcmp < 2
+	return dy
+}
+
+func newDyn[T comparable, V comparable](kind string, d *Dom[T], dv *Dom[V], cfg dynCfg) *Dyn {
 	fresh := func() *Dyn { return NewDyn(kind, d, dv, cfg) }
 	cm := d.Cmps[cfg.cmp]
 	switch kind {
@@ -350,6 +366,8 @@ func dynFromList[T comparable](kind string, l listAPI[T], p pender[T], js jsonAP
 	dy.Values = func() []any { return toAny(l.Values()) }
 	sliceProbes(dy, "Values()", l.Values, d.Probe[0])
 	sortedProbe[T](dy, l, d)
+	dy.Denote = denoteArr[T]
+	dy.GenDoc = func(r *core.R, n int, _, _ bool) []byte { return genArrDoc(r, d, n) }
 	dy.ElemOf = func(r *core.R) any { return d.Val(r) }
 	dy.PutAny = func(vs []any) { l.Add(fromAny[T](vs)...) }
 	dy.Grow = func(c *core.Ctx) { v := d.Vals(c.R, c.R.Range(1, 3)); c.Begin(kind, "Add", v); l.Add(v...) }
@@ -456,6 +474,8 @@ func dynFromSet[T comparable](kind string, s sets.Set[T], js jsonAPI, d *Dom[T],
 	dy.Values = func() []any { return toAny(s.Values()) }
 	sliceProbes(dy, "Values()", s.Values, d.Probe[0])
 	sortedProbe[T](dy, s, d)
+	dy.Denote = denoteArr[T]
+	dy.GenDoc = func(r *core.R, n int, _, _ bool) []byte { return genArrDoc(r, d, n) }
 	dy.ElemOf = func(r *core.R) any { return d.Val(r) }
 	dy.PutAny = func(vs []any) { s.Add(fromAny[T](vs)...) }
 	dy.Grow = func(c *core.Ctx) { v := d.Vals(c.R, c.R.Range(1, 3)); c.Begin(kind, "Add", v); s.Add(v...) }
@@ -502,6 +522,18 @@ func dynFromStack[T comparable](kind string, s stacks.Stack[T], js jsonAPI, d *D
 	dy.Values = func() []any { return toAny(s.Values()) }
 	sliceProbes(dy, "Values()", s.Values, d.Probe[0])
 	sortedProbe[T](dy, s, d)
+	dy.GenDoc = func(r *core.R, n int, _, _ bool) []byte { return genArrDoc(r, d, n) }
+	dy.Denote = denoteArr[T]
+	if kind == "LinkedListStack" {
+		// the linked stack reads an array top-to-bottom: push in reverse
+		dy.Denote = func(data []byte) ([]any, bool) {
+			e, ok := denoteArr[T](data)
+			for i, j := 0, len(e)-1; i < j; i, j = i+1, j-1 {
+				e[i], e[j] = e[j], e[i]
+			}
+			return e, ok
+		}
+	}
 	dy.ElemOf = func(r *core.R) any { return d.Val(r) }
 	dy.PutAny = func(vs []any) {
 		for _, v := range vs {
@@ -563,6 +595,8 @@ func dynFromQueue[T comparable](kind string, q queues.Queue[T], js jsonAPI, d *D
 	dy.Values = func() []any { return toAny(q.Values()) }
 	sliceProbes(dy, "Values()", q.Values, d.Probe[0])
 	sortedProbe[T](dy, q, d)
+	dy.Denote = denoteArr[T]
+	dy.GenDoc = func(r *core.R, n int, _, _ bool) []byte { return genArrDoc(r, d, n) }
 	dy.ElemOf = func(r *core.R) any { return d.Val(r) }
 	dy.PutAny = func(vs []any) {
 		for _, v := range vs {
@@ -588,6 +622,8 @@ func dynFromHeap[T comparable](kind string, h *binaryheap.Heap[T], d *Dom[T], co
 	dy.Values = func() []any { return toAny(h.Values()) }
 	sliceProbes(dy, "Values()", h.Values, d.Probe[0])
 	sortedProbe[T](dy, h, d)
+	dy.Denote = denoteArr[T]
+	dy.GenDoc = func(r *core.R, n int, _, _ bool) []byte { return genArrDoc(r, d, n) }
 	dy.ElemOf = func(r *core.R) any { return d.Val(r) }
 	dy.PutAny = func(vs []any) {
 		for _, v := range vs {
@@ -624,6 +660,8 @@ func dynFromMap[K comparable, V comparable](kind, family string, m maps.Map[K, V
 	sliceProbes(dy, "Values()", m.Values, dv.Probe[0])
 	sliceProbes(dy, "Keys()", m.Keys, dk.Probe[0])
 	sortedProbe[V](dy, m, dv)
+	dy.Denote = denoteObj[K, V]
+	dy.GenDoc = func(r *core.R, n int, dupKeys, dupVals bool) []byte { return genObjDoc(r, dk, dv, n, dupKeys, dupVals) }
 	dy.Get = func(k any) (any, bool) { return m.Get(k.(K)) }
 	if getKey != nil {
 		dy.GetKey = func(v any) (any, bool) { return getKey(v.(V)) }
@@ -681,9 +719,9 @@ func (d *Dyn) build(c *core.Ctx, n int) {
 
 // newDynRandom picks the element types for a kind: value containers over int
 // or string; key-value containers over the four key/value type pairs.
-func newDynRandom(c *core.Ctx, kind string, natural bool) *Dyn {
+func newDynRandom(c *core.Ctx, kind string, total bool) *Dyn {
 	r := c.R
-	cfg := drawCfg(r, natural)
+	cfg := drawCfg(r, total)
 	var d *Dyn
 	if isKV(kind) {
 		switch r.Intn(4) {
